@@ -253,3 +253,4 @@ Theorem C11_to_string_returns_a_text_argument_as_it_is : forall pf pretty t v,
   is_jsonb t = false -> parse_value t = Ok v -> to_text_w pf pretty t = Ok t.
 Proof. exact to_text_of_parsed_text. Qed.
 Print Assumptions C11_to_string_returns_a_text_argument_as_it_is.
+Print Assumptions C11_example.
